@@ -43,7 +43,7 @@ TABLE = {
             "dominated by the false edge of has_connected_engine_id; the dispatcher must refuse/release channels. "
             "Injectivity is a for-all-pairs statement that only an alphabet argument (not sampling) settles.",
             "Trusted table: quote(s, safe) emits only unreserved characters, '%' and `safe`. The current tree violates "
-            "R38a (listed as known finding). Does not decide uniqueness of the names engines report."),
+            "R38a (listed as known finding). Does not decide uniqueness of the names engines report. (R38d) every exit of the connect handshake has recorded or closed the channel; (R38e) a registration reserves nothing until the websocket's id handshake ends - open known finding."),
     "C28": ("must-call / must-precede queries on CFGs of the register, disconnect, shutdown and persist handlers",
             "Every path of register_engine_data restores a stored active run (same run id, contributors); disconnect "
             "stores the engine before dropping it; shutdown stores all engines and is on the lifespan exit path; the "
@@ -110,7 +110,7 @@ TABLE = {
             "one distinct NotificationScope member (together covering the enum) with its scope-specific conjunct; the "
             "result must be fetched for exactly these selections by an IN query; preferences come from the topic-filtered "
             "query; the new contributor's own subscriptions are skipped before posting.",
-            "Decides selection structure only; database contents, duplicate subscription rows and push delivery are outside."),
+            "Decides selection structure only; database contents, duplicate subscription rows and push delivery are outside. (R33d) one row per browser subscription (look-up before insert); (R33e) stored contributors are those of the stored run only and are cleared without a run."),
     "C35": ("no-drop path rule on the aggregation loop",
             "Every path through the loop body of AggregatedErrorLog.aggregate_with must append the entry, merge it "
             "(count +1 and take its time) or be the equal-time redelivery branch; merging is restricted to equal message "
@@ -163,7 +163,7 @@ TABLE = {
             "disable that check; flags are set only when offered; cancel_instruction and force_instruction must both "
             "reject unknown ids and track known ones; every waiting loop of a cancellable/forcible instruction must read "
             "the flag (directly or via its helper); Pause/Hold.cancel must run the inverse command.",
-            "Decides the reject-or-apply structure; tick-exact timing of the effect is not decided. Also decided (R12d): an accepted cancel of a command instance finalizes it before returning. (R12e): on the request-state model shared with C04 a cancelled Watch/Alarm never invokes its body and a forced one never returns to the same yield unchanged. (R12f) cancel_instruction/force_instruction refuse a concluded invocation before any change; (R12g) _execute_command retires a request whose invocation has concluded instead of executing it. (R12h) requests act on the invocation they name; (R12i) one instance id per Watch/Alarm invocation; (R12j) an aborted waiting Watch/Alarm is concluded."),
+            "Decides the reject-or-apply structure; tick-exact timing of the effect is not decided. Also decided (R12d): an accepted cancel of a command instance finalizes it before returning. (R12e): on the request-state model shared with C04 a cancelled Watch/Alarm never invokes its body and a forced one never returns to the same yield unchanged. (R12f) cancel_instruction/force_instruction refuse a concluded invocation before any change; (R12g) _execute_command retires a request whose invocation has concluded instead of executing it. (R12h) requests act on the invocation they name; (R12i) one instance id per Watch/Alarm invocation; (R12j) an aborted waiting Watch/Alarm is concluded. R12e also reports an accepted force that is dropped (the generator ends and no continuation reaches the body)."),
     "C13": ("error-discipline rules on Engine.tick (handler completeness, must-call), failure-marking rules on the interpreter "
             "and command manager, and a class-hierarchy-resolved exception-escape audit of the unprotected part of the tick",
             "The interpreter tick and the command tick must sit in try bodies with a catch-all whose every handler reaches "
@@ -188,7 +188,7 @@ TABLE = {
             "cancellable=forcible=False last, and append the item; the exclusion table equals the property's list; every "
             "visitor pairs node.completed = True with tracking.mark_completed. All are facts over every record history.",
             "Decides these structural clauses; producibility for arbitrary runtime state orders (the raise sites of the "
-            "generator) and monotonicity of the clock itself are not decided. R15f additionally decides one producibility clause: a command request never receives two different conclusive record states (which makes the generator raise for the rest of the run) - violated on the pinned tree, repaired (fixed entry). (R15f) every cancellation finalizes at once, so no cancelled command reaches a second conclusive mark; (R15g) Tracking.mark_* called with a request/command attribute the state to that request's own invocation. (R15h) last_instance_id is the most recently created invocation. (R15j) Cancelled is recorded for a request without a command instance only if its invocation has not concluded."),
+            "generator) and monotonicity of the clock itself are not decided. R15f additionally decides one producibility clause: a command request never receives two different conclusive record states (which makes the generator raise for the rest of the run) - violated on the pinned tree, repaired (fixed entry). (R15f) every cancellation finalizes at once, so no cancelled command reaches a second conclusive mark; (R15g) Tracking.mark_* called with a request/command attribute the state to that request's own invocation. (R15h) last_instance_id is the most recently created invocation. (R15j) Cancelled is recorded for a request without a command instance only if its invocation has not concluded. (R15k) choke point: _add_state appends only after a scan that returns on a conclusive state of the same invocation - decides 'no state behind a conclusive one' for every caller; (R15l) Watch and Alarm visitors agree on cancellation; (R15m) handlers are removed before a body is reset; (R15a) the state clock is monotone."),
     "C34": ("must-precede (sort before use across two cooperating functions), sibling agreement of column iteration, "
             "one-cell-per-entry path count, loop-shape and guard-dominance rules on the sample-and-hold cursor",
             "The row writer's cursor algorithm needs sorted values (established as a side effect of the header writer: "
@@ -260,7 +260,7 @@ TABLE = {
             "macro_calling_macro's result, lie on no cycle, and be followed by the completion counter; ProgramNode.macros is "
             "written only by _register_macro (unconditional overwrite) and looked up by name at call time; the live-edit "
             "validation raises for a started macro that is missing, retyped or modified.",
-            "Completeness of the recursion detector over arbitrary macro call graphs is out of static reach (it follows only the first Call macro child). (R41d) the recursion search follows every Call macro line and returns a path only if it reaches the target; (R41e) its result is computed at call time."),
+            "Completeness of the recursion detector over arbitrary macro call graphs is out of static reach (it follows only the first Call macro child). (R41d) the recursion search follows every Call macro line and returns a path only if it reaches the target; (R41e) its result is computed at call time. (R41d) the search covers call lines nested in blocks/watches/alarms (not nested definitions); (R41f) look-up repeated after waiting; (R41g) all started definitions are protected; (R41h) executing handlers of the previous call are awaited; (R41i) re-execution re-defines; (R41j) the ended-block walk stops at the enclosing macro."),
     "C17": ("path enumeration of the parser's nesting loop (exactly-once append), id-assignment audit, totality audit against a justified table",
             "Every acyclic path through the body of the indentation loop of parse_method must call append_child(node) exactly "
             "once and the first loop must produce exactly one node per line; every returned node carries an id; partial "
@@ -309,7 +309,7 @@ TABLE = {
             "quoting is QUOTE_NONE; header and rows iterate the same tag sequence under the same omission predicate and every "
             "archive() override returns None on all paths or on none; the mark separator is disjoint from the dialect's special "
             "characters.",
-            "The byte-level behaviour of Python's csv module is trusted; read-back equality of values is not decided."),
+            "The byte-level behaviour of Python's csv module is trusted; read-back equality of values is not decided. (R39d) the run id is taken before the base class clears it; (R39e) newline='' on every open; (R39f) a final row before the file is released; (R39g) a failing row write is swallowed after archive() handed the values out - open known finding."),
     "C40": ("lock-discipline (effect) analysis: cross-thread entry points discovered from the message handlers, shared-state "
             "effects must be lexically under the engine lock, non-reentrancy check",
             "Entry points are the Engine methods called from EngineMessageHandlers; every statement that touches the state "
